@@ -14,17 +14,19 @@ CFG = '''CONSTANTS
   NInputs = %(n)d
   Seed = %(seed)d
   K = 1
-INIT Init
-NEXT Next
-%(view)s
+%(spec)s
 INVARIANTS ExclusiveOwnership OwnerConsistent ResultIsSequential %(emit)s
+%(live)s
 CHECK_DEADLOCK FALSE
 '''
 
 
 def cfg(ctx, G='{1, 2}', variant='ok', coarse=False, det=False, hist=False, n=12, groups=3):
     return CFG % dict(G=G, variant=variant, coarse=str(coarse).upper(), det=str(det).upper(), hist=str(hist).upper(), n=n, groups=groups,
-                      seed=ctx.seed, view='' if hist else 'VIEW NoHist', emit='EmitSchedule' if hist else '')
+                      seed=ctx.seed, emit='EmitSchedule' if hist else '',
+                      # without the schedule in the state (Hist = FALSE) the graph is small: all interleavings are checked under
+                      # SPECIFICATION Spec (weak fairness) with the liveness property "every call terminates"
+                      spec='INIT Init\nNEXT Next' if hist else 'SPECIFICATION Spec', live='' if hist else 'PROPERTY Terminates')
 
 
 def pool_check(ctx):
